@@ -66,17 +66,30 @@ def gen(stream, rng, i, cfg):
     if stream == 'tree':
         slot = scen.gen_slot(rng, fault=0.0, hostile=rng.random() < 0.3)
     else:
+        scen.LAZY[0] = True
         # swarm: which exception classes are enabled, how often callbacks fail
         k = rng.choice([1, 2, 4, 8, len(EXC_CATALOGUE)])
         excs = rng.sample(EXC_CATALOGUE, k)
         slot = scen.gen_slot(rng, fault=rng.choice([0.15, 0.4, 0.8]), hostile=rng.random() < 0.6, excs=excs)
+    scen.LAZY[0] = False
     env = scen.slot_env(slot)
     forms, gens = [], []
     for _ in range(FORMULAS_PER_SCENARIO):
         f = formgen.g3_tree(rng, env)
+        if stream == 'fault' and rng.random() < 0.12 and (slot['functions'] or slot['variables']):
+            # a callback value as the value of the WHOLE formula (not only as an argument)
+            names = sorted(slot['variables']) + [n + '()' for n in sorted(slot['functions']) if n not in ('SUM', 'IF', 'ABS', 'LEN')]
+            if names:
+                forms.append(rng.choice(names))
+                gens.append('G6')
+                continue
         if stream == 'tree' and rng.random() < 0.04:
             forms.append(formgen.g7_long(rng, env))
             gens.append('G7')
+            continue
+        if stream == 'tree' and rng.random() < 0.03:
+            forms.append(formgen.g8_regex_stress(rng))
+            gens.append('G8')
             continue
         if rng.random() < (0.3 if stream == 'tree' else 0.1):
             forms.append(formgen.g4_damage(rng, f))
@@ -216,7 +229,7 @@ def shrink_candidates(sc):
 def describe():
     return {
         'rule': 'one evaluation = one Parser.parse call under the step clock on a scripted host; generators G1 unicode, '
-                'G2 token soup, G3 well-formed trees, G4 damaged trees, G7 long/deep inputs (chains of 1500 terms, 400-deep parentheses, 4500-char strings), G5 function x arity(0-4) x 36-entry pool walked by a '
+                'G2 token soup, G3 well-formed trees, G4 damaged trees, G7 long/deep inputs (chains of 1500 terms, 400-deep parentheses, 4500-char strings), G8 regex stress (a token-sized unit repeated 20-60 times inside/after an opening quote, with a valid prefix), G5 function x arity(0-4) x 36-entry pool walked by a '
                 'seeded affine permutation (no repeats), G6 trees over a host whose callbacks raise/return hostile values; '
                 'distinct = distinct (formula text, host spec) by blake2b digest; non-trivial = the evaluation reached at least '
                 'one reference or function-call site (a call_* entry point of hotxlfp/parser.py was executed)',
